@@ -50,6 +50,11 @@ pub fn ref_contract(m: &Maps) -> Maps {
 pub fn is_contracted_form(m: &Maps) -> bool {
     m.classes.iter().all(|(src, c)| c.names[T].as_deref().map_or(true, |n| split(n).is_none() && (split(src).is_none() || !n.contains('/'))))
 }
+/// the form states reached through EDITS are kept in: a top-level class has no splittable name, a nested class no `/` in its
+/// name (it may contain `$`: such a name can come out of a .tinydiff, it is the class' own name and extension keeps it whole)
+pub fn is_edit_domain(m: &Maps) -> bool {
+    m.classes.iter().all(|(src, c)| c.names[T].as_deref().map_or(true, |n| if split(src).is_none() { split(n).is_none() } else { !n.contains('/') }))
+}
 /// a nested class without a name whose outer chain is broken (C11 leaves open whether extension may refuse)
 pub fn has_unnamed_nested_with_broken_outer(m: &Maps) -> bool {
     m.classes.iter().any(|(src, c)| c.names[T].is_none() && split(src).is_some_and(|(o, _)| ext_name(m, o).is_err()))
@@ -71,6 +76,13 @@ pub fn nested_target(rng: &mut Rng, cfg: &GenCfg) -> String {
 }
 pub fn class_target_for(rng: &mut Rng, cfg: &GenCfg, src: &str) -> String {
     if split(src).is_some() { nested_target(rng, cfg) } else { top_level_target(rng, cfg) }
+}
+/// Names given by an EDIT (they reach a version through a .tinydiff, never through the root file, which is contracted on
+/// load): one nested class in six gets a simple name that itself contains `$` (`Mid$Part`, `A$1`) — legal, and kept as it
+/// is by extension (the extended name of a nested class is the outer's extended name + `$` + its OWN name, whatever it is).
+pub fn class_target_for_edit(rng: &mut Rng, cfg: &GenCfg, src: &str) -> String {
+    if split(src).is_some() && rng.chance(1, 6) { return format!("{}${}", gen::simple_name(rng, cfg), rng.pick(&["Part", "1", "x", "B"])); }
+    class_target_for(rng, cfg, src)
 }
 
 /// The configuration the root states are drawn with.
@@ -115,7 +127,7 @@ fn new_comment(rng: &mut Rng, old: Option<&str>) -> String { different(rng, old,
 
 fn new_class(rng: &mut Rng, src: &str, mapped: &[String]) -> Class {
     let cfg = add_cfg();
-    let mut c = Class { names: vec![Some(src.to_string()), Some(class_target_for(rng, &cfg, src))], comment: if rng.chance(1, 3) { Some(new_comment(rng, None)) } else { None }, ..Default::default() };
+    let mut c = Class { names: vec![Some(src.to_string()), Some(class_target_for_edit(rng, &cfg, src))], comment: if rng.chance(1, 3) { Some(new_comment(rng, None)) } else { None }, ..Default::default() };
     gen::fill_members(rng, &cfg, 2, 1, mapped, &mut c);
     c
 }
@@ -128,10 +140,10 @@ fn one_edit(rng: &mut Rng, m: &mut Maps) -> Option<&'static str> {
         0 | 1 => { // rename a named class
             let k = pick_key(rng, &m.classes, |_, c| c.names[T].is_some())?;
             let old = m.classes[&k].names[T].clone();
-            m.classes.get_mut(&k).unwrap().names[T] = Some(different(rng, old.as_deref(), |r| class_target_for(r, &cfg, &k)));
+            m.classes.get_mut(&k).unwrap().names[T] = Some(different(rng, old.as_deref(), |r| class_target_for_edit(r, &cfg, &k)));
             Some(if split(&k).is_some() { "class.rename.nested" } else { "class.rename.top_level" })
         }
-        2 => { let k = pick_key(rng, &m.classes, |_, c| c.names[T].is_none())?; m.classes.get_mut(&k).unwrap().names[T] = Some(class_target_for(rng, &cfg, &k)); Some("class.name_an_unnamed_one") }
+        2 => { let k = pick_key(rng, &m.classes, |_, c| c.names[T].is_none())?; m.classes.get_mut(&k).unwrap().names[T] = Some(class_target_for_edit(rng, &cfg, &k)); Some("class.name_an_unnamed_one") }
         3 => { // add a top-level class
             let src = gen::class_sources(rng, &GenCfg { nesting: false, ..cfg.clone() }, 1).pop()?;
             if m.classes.contains_key(&src) || split(&src).is_some() { return None; }
